@@ -434,6 +434,22 @@ REL = [
 ]
 
 
+# constants that are copies of configuration entries (name -> path)
+COPIED = {
+    "T_eq": ("solution", "T_eq"), "a": ("kinetics", "a"), "b": ("kinetics", "b"), "c": ("kinetics", "c"),
+    "rho_l": ("solution", "rho_l"), "height": ("vial", "geometry", "height"),
+    "diameter": ("vial", "geometry", "diameter"), "cp_s": ("solution", "cp_s"),
+    "solid_fraction": ("solution", "solid_fraction"), "cp_w": ("water", "cp_w"), "cp_i": ("water", "cp_i"),
+    "Dh": ("water", "Dh"), "k_f": ("solution", "k_f"), "M_s": ("solution", "M_s"),
+    "sigma_B": ("general", "sigma_B"), "k_B": ("general", "k_B"),
+    "p_vac": ("VISF", "p_vac"), "kappa": ("VISF", "kappa"), "Dh_evaporation": ("VISF", "Dh_evaporation"),
+    "m_water": ("VISF", "m_water"), "t_vac_start": ("VISF", "t_vac_start"),
+    "t_vac_duration": ("VISF", "t_vac_duration"), "air_gap": ("jacket", "air_gap"),
+    "lambda_air": ("jacket", "lambda_air"), "lambda_s": ("solution", "lambda_s"),
+    "lambda_w": ("water", "lambda_w"), "lambda_i": ("water", "lambda_i"),
+}
+
+
 def _close_rel(a, b, scale):
     import math
     if math.isnan(a) or math.isnan(b) or math.isinf(a) or math.isinf(b):
@@ -501,6 +517,21 @@ def predicates(case, impl):
             if not _close_rel(a, b, scale):
                 out.append(Failure(clause="derived_relations", key=f"derived_relations|{site}|{name}",
                                    detail=f"{name}: {a!r} vs {b!r}"))
+    # copied constants are the configured entries (the custom value where the file names it, zero included)
+    if impl.get("raise") is None and "merged_obj" in impl:
+        c = {k: v for k, v in impl["const"]}
+        for name, path in COPIED.items():
+            if name not in c:
+                continue
+            v, ok = get_path(impl["merged_obj"], path)
+            try:
+                want = float(v)
+            except (TypeError, ValueError):
+                continue
+            if ok and not (c[name] == want or (c[name] != c[name] and want != want)):
+                cls = "zero" if want == 0 else "value"
+                out.append(Failure(clause="copied_exact", key=f"copied_exact|{site}|{name}|{cls}",
+                                   detail=f"const[{name}] = {c[name]!r} but the configuration says {'/'.join(path)} = {v!r}"))
     # enumeration table: rejected at load exactly outside the table
     if case.get("welltyped") and "merged_obj" in impl:
         m = impl["merged_obj"]
@@ -603,6 +634,8 @@ def _new_number(rng, path, dv):
         return rng.choice([0, -1, 0.5, 1])
     if dv == 0:
         return rng.choice([0, 1, 2.5])
+    if rng.random() < 0.08 and path[-1] != "M_s":
+        return 0
     f = rng.choice([0.5, 1, 2, 3, 10, rng.uniform(0.3, 3)])
     v = dv * f
     if rng.random() < 0.5:
@@ -740,6 +773,22 @@ MISPLACED = [
 ]
 
 
+def _zero_cases(rng):
+    """every numeric entry with a non-zero default, overridden by a spelled zero, in the configuration that reads it"""
+    d = default_obj()
+    for path, dv in leaf_paths(d):
+        if path in ENUM_PATHS or isinstance(dv, str) or float(dv) == 0:
+            continue
+        combo = ("jacket", "square", "spatial_2D", "cube") if path[0] == "jacket" else ("VISF", "hexagonal", "spatial_1D", "cube")
+        entries = []
+        for p, val in zip(ENUM_PATHS, combo):
+            _ensure(entries, p, val)
+        zero = rng.choice(["0", "0.0", "0e0", "0.0e+00", "-0.0", "00"])
+        _ensure(entries, path, zero)
+        yield dict(kind="zero", yaml="\n".join(emit(entries)) + "\n", welltyped=(path[-1] != "M_s"), n_entries=5,
+                   spell=["zero:" + zero])
+
+
 def cases(rng, tier):
     n_struct, n_enum = (260, 90) if tier == "quick" else (4500, None)
     yield dict(kind="meta", yaml=None)
@@ -759,6 +808,7 @@ def cases(rng, tier):
         combos = picked
     for c in combos:
         yield _enum_case(c, rng)
+    yield from _zero_cases(rng)
     for name, text in MALFORMED:
         yield dict(kind="malformed:" + name, yaml=text, n_entries=1)
     for name, text in MISPLACED:
